@@ -700,7 +700,7 @@ pub fn run(args: &Args) -> i32 {
     let reduced = alphabet(false);
     let n1 = (full.len() as u64).pow(d);
     let n2 = (reduced.len() as u64).pow(d + 1);
-    let dog = Dog::start(check, 60);
+    let dog = Dog::start(check, if args.extra.get("budget").is_some() { 3_600 } else { 60 });
     vmon::par_cases(check, n1, args.threads, |i, _| {
         arm(&dog);
         exhaustive_case(check, i, &full, d, 1)
